@@ -227,3 +227,13 @@ TEXT["C15"] = {
  "note": "The unmarshal models used by the round-trip theorems are defined in Proofs/EncodeProofs.lean mirroring the judge's readers (Driver/Judge6.lean), which are what is run against the real code; parameters/keys accept any non-zero signature byte and GT bytes are not validated by the library, so for those the unmarshallers accept more than the marshaller's range (a property of the format).  Trusted: hand models mirror marshal.cpp.",
  "technique": "Lean 4 proof (byte-list length arithmetic, reader/writer round trips built on the point-encoding theorems) + two-pass differential correspondence",
 }
+TEXT["C06"] = {
+ "level": "Lean 4 theorems about models of wnaf.hpp / curve_fast_multiply.cpp / decomposition.cpp (hand-written loop mirrors over the group operations REGENERATED from curve.hpp; tied to the real code EXACTLY by the judge: recoding digits, GLV and x-adic outputs, endomorphism/Frobenius images and the raw Jacobian results of the two accelerated methods).  "
+          "Recoding: for every k < 2^bits and every window the signed-digit recoding represents exactly k, has at most bits+1 digits (the buffer size), digits 0 or odd and < 2^w, non-adjacent (the pre-repair recoding is proved wrong at 2^256-1, finding F1); tables hold the odd multiples; table evaluation, double-and-add and their composition return k*P in any abelian group; "
+          "x-adic decomposition recombines to y mod r with digits in range for all y < 2^256; GLV split c0 + c1*lambda = k (mod r) for every 256-bit k whatever the reciprocal approximation returns, both halves fit.  "
+          "On the REAL curves (C06b, using the group law of C05b): (x,y) -> (beta x, y) is an endomorphism (beta^3 = 1) acting as [lambda] on the span of the published G1 generator; the twisted Frobenius is an endomorphism of the twist acting as [q mod r] = [-|x|] on the span of the G2 generator, all iterates; "
+          "the interleaved multi-lane wNAF loop is proved for any representation of a group, and END TO END: g1_multiply_endomorphism a k and g2_multiply_frobenius a k (models of the two accelerated entry points, Jacobian in/out) return [k]P for every k < 2^256 and every P in G1 resp. G2.",
+ "note": "'G1'/'G2' is the span of the published generator (that this span is every point killed by r needs the group order, H-card: not claimed, not needed).  Observations recorded in DESIGN.md: G2::frobenius_map(., power) is a no-op for power = 2, 3 mod 4 (source has TODO; the library only iterates power 1); a shadowed local in multiply_endomorphism(a, scalar) makes the 'scalar - r' branch dead (result unaffected).  "
+         "Trusted: loop mirrors (tied exactly by the judge), translator for the group operations.",
+ "technique": "Lean 4 proof (induction over digits and lanes; endomorphism algebra; transfer to Mathlib's elliptic-curve group; closed facts by kernel evaluation) + exact differential correspondence",
+}
